@@ -578,9 +578,183 @@ def replay_lp1_forward(fwd):
     return replay
 
 
+def unit_contrib_layout(ctx):
+    """ConvolutionCollection.__init__: the list of contribution ids handed to the C convolution generator has the BLOCK layout the interpolators index by
+    (LCAOInterpolator: l=0 feature k in column k, the 'minus' part of l=1 feature j in column n0 + j, its 'plus' part in column n0 + n1 + j):
+        ids = [ l0 ids in order | minus ids of the l1 features in order | plus ids of the l1 features in order ],   n0 = #l0 (+ nalpha with vj), n1 = #l1.
+    Every ifeat_ids list of length <= 3 over the id table (bounded in the list length; ids are the table's own)."""
+    LM = "ciderpress.dft.lcao_convolutions"
+    it = ctx.interp
+    mod = it.load_module(LM)
+    fq = [LM + ":ConvolutionCollection.__init__", LM + ":ConvolutionCollection.n0", LM + ":ConvolutionCollection.n1"]
+    table = mod.ns["IFEAT_ID_TO_CONTRIB"]
+    l0 = sorted(k for k, v in table.items() if isinstance(v, int))
+    l1 = sorted(k for k, v in table.items() if not isinstance(v, int))
+    seen = []
+    libc = mod.ns["libcider"]
+    it.externals["%s.generate_convolution_collection" % libc.name] = lambda interp, *a: seen.append(a)
+    it.externals["pyscf.lib.c_null_ptr"] = lambda interp: "nullptr"
+    it.externals["ctypes.byref"] = lambda interp, x: x
+    atco = mkobj_(mod, "_ATCO", atco_c_ptr="atco")
+    lists = [[]]
+    for n in (1, 2, 3):
+        lists += [list(x) for x in itertools.product(l0 + l1, repeat=n)]
+    nalpha = 2
+    cnt = 0
+    for ids in lists:
+        for has_vj in (True, False):
+            valid = all(not (a in l1 and b in l0) for i, a in enumerate(ids) for b in ids[i + 1:]) and (ids or has_vj)
+            del seen[:]
+            paths = all_paths(it, lambda: it.call(mod.ns["ConvolutionCollection"], [atco, atco, sym_array("al", (nalpha,)), sym_array("an", (nalpha,))], {"has_vj": has_vj, "ifeat_ids": list(ids)}))
+            o, v = paths[0][0], paths[0][1]
+            if not valid:
+                ctx.bounded("ccl ids=%s vj=%s: an l0 feature after an l1 feature (or an empty collection) is rejected" % (ids, has_vj), o == "raise" and len(paths) == 1, "ifeat_ids of length <= 3", str(v)[:100])
+                continue
+            ok = o == "return" and len(paths) == 1 and len(seen) == 1
+            detail = ""
+            if ok:
+                a = seen[0]
+                got = [int(x) for x in a[5].arr.reshape(-1)]
+                m = [table[k][0] for k in ids if k in l1]
+                p_ = [table[k][1] for k in ids if k in l1]
+                want = [table[k] for k in ids if k in l0] + m + p_
+                n0 = it.getattr(v, "n0")
+                n1 = it.getattr(v, "n1")
+                ok = got == want and int(a[7]) == len(want) and int(a[6]) == nalpha and int(n1) == len(m) and int(n0) == len(want) - 2 * len(m) + (nalpha if has_vj else 0) \
+                    and int(it.getattr(v, "num_out")) == len(want) + (nalpha if has_vj else 0)
+                detail = "ids handed to C %s, block layout %s, n0 %s n1 %s" % (got, want, n0, n1)
+            cnt += 1
+            ctx.bounded("ccl ids=%s vj=%s: contribution ids in block layout [l0 | l1 minus | l1 plus], n0 / n1 / num_out consistent" % (ids, has_vj), ok, "ifeat_ids of length <= 3", detail,
+                        witness={"ifeat_ids": ids, "has_vj": has_vj}, replay=replay_contrib_layout(ids, has_vj))
+    ctx.holds("contribution-id layouts enumerated", cnt > 100, str(cnt), fq)
+
+
+def mkobj_(mod, name, **f):
+    o = Obj(ClassV(name, [], mod))
+    o.fields.update(f)
+    return o
+
+
+def replay_contrib_layout(ids, has_vj):
+    def replay(wit):
+        from pyvc import native
+        native.install_shim()
+        import ciderpress.dft.lcao_convolutions as L
+        got = {}
+
+        class Lib(object):
+            def generate_convolution_collection(self, *a):
+                import ctypes
+                n = a[7].value
+                got["ids"] = [int(x) for x in np.ctypeslib.as_array(ctypes.cast(a[5], ctypes.POINTER(ctypes.c_int32)), shape=(n,))] if n else []
+
+            def free_convolution_collection(self, *a):
+                pass
+        old = L.libcider
+        try:
+            L.libcider = Lib()
+            A = type("A", (), {"atco_c_ptr": None})()
+            L.ConvolutionCollection(A, A, np.ones(2), np.ones(2), has_vj=has_vj, ifeat_ids=list(ids))
+        finally:
+            L.libcider = old
+        t = L.IFEAT_ID_TO_CONTRIB
+        want = [t[k] for k in ids if isinstance(t[k], int)] + [t[k][0] for k in ids if not isinstance(t[k], int)] + [t[k][1] for k in ids if not isinstance(t[k], int)]
+        return {"reproduced": bool(got.get("ids") != want), "ids_handed_to_C": got.get("ids"), "block_layout": want}
+    return replay
+
+
+def unit_function_to_convolve(kind, level, rho_mult):
+    """NLDFAuxiliaryPlan.get_function_to_convolve: the function whose convolution gives the features is the density (rho_mult = 'one') or the density times the
+    theta EXPONENT a_0[n] (rho_mult = 'expnt', docs: "rho times the theta exponent") — for Gaussian and spline plans alike (a spline plan interpolates in the
+    index q(a), which is not the exponent); the returned derivative tuple is the derivative of that function w.r.t. (rho, sigma, tau)."""
+    def run(ctx):
+        from contracts.planharness import make_settings, make_plan
+        PM, SM = "ciderpress.dft.plans", "ciderpress.dft.settings"
+        it = ctx.interp
+        hyps = []
+        st = make_settings(it, "j", level, rho_mult, hyps)
+        RC = tm.var("rhocut")
+        hyps.append(tm.mk_lt(tm.ZERO, RC))
+        if kind == "NLDFSplinePlan":
+            # the spline tables are not needed here: set-up skipped, the exponent -> index map by contract (an unspecified differentiable function q(a))
+            it.overrides[PM + ":NLDFSplinePlan._run_setup"] = lambda interp, f, args, kwargs: None
+
+            def a2q(interp, f, args, kwargs):
+                a = np.asarray(args[1], dtype=object)
+                return (np.array([ufn("QIDX", [x]) for x in a], dtype=object), np.array([ufn("DQIDX", [x]) for x in a], dtype=object))
+            it.overrides[PM + ":NLDFSplinePlan.get_a2q_fast"] = a2q
+        fq = [PM + ":NLDFAuxiliaryPlan.get_function_to_convolve", PM + ":NLDFAuxiliaryPlan.eval_feat_exp", PM + ":%s._get_interpolation_arguments" % kind]
+        for nspin in (1, 2):
+            try:
+                plan = make_plan(it, st, nspin, nalpha=2, hyps=list(hyps), rhocut=RC, kind=kind)
+            except (PyRaise, Unsupported) as e:
+                ctx.undecided("%s constructed" % kind, str(e)[:200], fq)
+                return
+            n_in = 3 if level == "MGGA" else 2
+            rt = tuple(sym_array(nm, (NS,)) for nm in ("rho", "sigma", "tau")[:n_in])
+            H = list(hyps) + [tm.mk_lt(RC / nspin, x) for x in rt[0]] + [tm.mk_le(tm.ZERO, x) for r in rt[1:] for x in r]
+            it.hyps = list(H)
+            sm = it.load_module(SM)
+            th = list(st.fields["theta_params"]) if isinstance(st.fields.get("theta_params"), (list, tuple, np.ndarray)) else list(it.getattr(st, "theta_params"))
+            tag = "%s/%s/%s/nspin%d" % (kind, level, rho_mult, nspin)
+            paths = all_paths(it, lambda: it.call_method(plan, "get_function_to_convolve", [tuple(r.copy() for r in rt)]))
+            kw = dict(a0=th[0], grad_mul=th[1], rhocut=plan.fields["rhocut"], nspin=nspin)
+            if level == "MGGA":
+                kw["tau_mul"] = th[2]
+            spec_paths = all_paths(it, lambda: it.call(sm.ns["get_cider_exponent" if level == "MGGA" else "get_cider_exponent_gga"], [r.copy() for r in rt], dict(kw)))
+            n = 0
+            for o, v, pc, _ in paths:
+                if o != "return":
+                    ctx.holds("%s returns#%d" % (tag, n), False, str(v)[:200], fq)
+                    n += 1
+                    continue
+                for o2, v2, pc2, _ in spec_paths:
+                    if o2 != "return":
+                        continue
+                    Hp = H + list(pc) + list(pc2)
+                    f, df = v
+                    a_spec = v2[0]
+                    for g in range(NS):
+                        want = tm.lift(rt[0][g]) * (tm.lift(a_spec[g]) if rho_mult == "expnt" else tm.ONE)
+                        ctx.equal("%s: function to convolve[%d] = rho%s#%d" % (tag, g, " * theta exponent" if rho_mult == "expnt" else "", n), Hp, f[g], want, fq, replay=replay_function_to_convolve(level))
+                        for k in range(n_in):
+                            ctx.equal("%s: derivative output %d at point %d = d(function)/d(%s)#%d" % (tag, k, g, ("rho", "sigma", "tau")[k], n), Hp, df[k][g], tm.diff(want, rt[k][g]), fq)
+                    if rho_mult == "expnt":
+                        ctx.canary("%s canary#%d" % (tag, n), Hp, f[0], rt[0][0])
+                    n += 1
+    return run
+
+
+def replay_function_to_convolve(level):
+    def replay(wit):
+        from pyvc import native
+        native.install_shim()
+        from ciderpress.dft.settings import NLDFSettingsVJ, get_cider_exponent, get_cider_exponent_gga
+        from ciderpress.dft.plans import NLDFSplinePlan
+        th = [1.0, 0.0, 0.03125] if level == "MGGA" else [1.0, 0.03]
+        fp = [[2.0, 0.0, 0.04]] if level == "MGGA" else [[2.0, 0.04]]
+        st = NLDFSettingsVJ(level, th, "expnt", ["se_ar2"], fp)
+        plan = NLDFSplinePlan(st, 1, 0.01, 1.8, 12, spline_size=40)
+        rho, sig, tau = np.array([0.3, 1.2]), np.array([0.1, 0.5]), np.array([0.2, 0.9])
+        rt = (rho, sig, tau) if level == "MGGA" else (rho, sig)
+        f = plan.get_function_to_convolve(tuple(r.copy() for r in rt))[0]
+        if level == "MGGA":
+            a = get_cider_exponent(rho, sig, tau, a0=th[0], grad_mul=th[1], tau_mul=th[2], rhocut=plan.rhocut, nspin=1)[0]
+        else:
+            a = get_cider_exponent_gga(rho, sig, a0=th[0], grad_mul=th[1], rhocut=plan.rhocut, nspin=1)[0]
+        dev = float(np.max(np.abs(f - rho * a) / np.abs(rho * a)))
+        return {"reproduced": bool(dev > 1e-10), "function_to_convolve": [float(x) for x in f], "rho_times_theta_exponent": [float(x) for x in rho * a]}
+    return replay
+
+
 def units():
     from contracts import c05
     u = [("ids", unit_ids), ("gto/gq", unit_gto("gq")), ("gto/qg", unit_gto("qg")), ("gto-scaling/gq", unit_gto_homogeneity("gq")), ("gto-scaling/qg", unit_gto_homogeneity("qg")), ("other-coefs", unit_other_coefs), ("spline-setup", unit_spline_setup), ("sdmx-l1-rows", unit_sdmx_l1_rows)]
+    u.append(("contrib-layout", unit_contrib_layout))
+    for kind in ("NLDFGaussianPlan", "NLDFSplinePlan"):
+        for level in ("MGGA", "GGA"):
+            for rm in ("one", "expnt"):
+                u.append(("function-to-convolve/%s/%s/%s" % (kind, level, rm), unit_function_to_convolve(kind, level, rm)))
     for fwd, bwd, tabs in c05.INPLACE:
         u.append(("lp1/%s" % fwd, c05.unit_inplace(fwd, bwd, tabs)))
         u.append(("lp1-forward/%s" % fwd, unit_lp1_forward(fwd)))
